@@ -54,6 +54,13 @@ theorem isSpecial_not_alnum (c : Char) (h : isSpecial c = true) : isAsciiAlnum c
   unfold isSpecial at h
   exact special_not_alnum c.toNat (List.contains_iff_mem.mp h)
 
+theorem unescape_cons_ne (c : Char) (cs : List Char) (h : c ≠ '\\') : unescape (c :: cs) = c :: unescape cs := by
+  cases cs <;> simp [unescape, h]
+
+theorem literalAtoms_cons_ne (c : Char) (cs : List Char) (h : c ≠ '\\') (hm : isMeta c = false) :
+    literalAtoms (c :: cs) = (literalAtoms cs).map (c :: ·) := by
+  cases cs <;> simp [literalAtoms, h, hm]
+
 /-- **regexEscape_literal.** The escaped text (CPython 3.12 `re.escape`: exactly the code points of
 `re._special_chars_map`, re-extracted on every run) is a sequence of literal atoms — every character is either a non-special
 character or a backslash-escaped non-alphanumeric one — and the text those atoms match is exactly `s`
@@ -75,8 +82,8 @@ theorem regexEscape_literal (s : List Char) : unescape (reEscape s) = s ∧ lite
         | false => rfl
         | true => exact absurd (isMeta_isSpecial c hm) hs
       have hre : reEscape (c :: cs) = c :: reEscape cs := by simp [reEscape, hs]
-      rw [hre]
-      simp [unescape, literalAtoms, ih1, ih2, hne, hnm]
+      rw [hre, unescape_cons_ne c _ hne, literalAtoms_cons_ne c _ hne hnm, ih1, ih2]
+      exact ⟨rfl, rfl⟩
 
 /-- the library call is that function -/
 theorem regexEscape_call (s : String) (h : Heap) :
@@ -137,9 +144,6 @@ def SafeOK (safe : List Nat) : Prop := ∀ b ∈ safe, b < 128 ∧ b ≠ 37
 theorem safeOK_urlEncode : SafeOK (safeBytes "':/&+") := by unfold SafeOK; decide
 theorem safeOK_urlEncodeComponent : SafeOK (safeBytes "'") := by unfold SafeOK; decide
 
-theorem hexU_lt (x : Nat) (hx : x < 16) : hexU x = Char.ofNat (if x < 10 then 48 + x else 55 + x) := by
-  unfold hexU; split <;> rfl
-
 theorem hex_roundtrip (x : Nat) (hx : x < 16) : hexVal (hexU x) = some x := by
   unfold hexU hexVal
   by_cases h : x < 10
@@ -171,7 +175,7 @@ theorem decode_quoteByte (safe : List Nat) (hs : SafeOK safe) (b : Nat) (hb : b 
 
 theorem decode_quote (safe : List Nat) (hs : SafeOK safe) : ∀ (bs : List Nat), (∀ b ∈ bs, b < 256) →
     percentDecode (bs.flatMap (quoteByte safe)) = bs
-  | [], _ => rfl
+  | [], _ => by simp [percentDecode]
   | b :: bs, hb => by
     rw [List.flatMap_cons, decode_quoteByte safe hs b (hb b List.mem_cons_self)]
     rw [decode_quote safe hs bs (fun x hx => hb x (List.mem_cons_of_mem _ hx))]
@@ -218,12 +222,13 @@ theorem quoteByte_ascii (safe : List Nat) (hs : SafeOK safe) (b : Nat) (hb : b <
 
 /-! ### non-vacuity -/
 
-example : reEscape "a.b*c (d)".toList = "a\\.b\\*c\\ \\(d\\)".toList := by decide
-example : literalAtoms (reEscape "a.b*c (d)".toList) = some "a.b*c (d)".toList := by decide
-example : literalAtoms "a.b".toList = none := by decide      -- an unescaped metacharacter is not a literal atom
-example : literalAtoms "\\d".toList = none := by decide      -- a class escape is not a literal atom
-example : pyQuote (safeBytes "':/&+") "a b/é".toList = "a%20b/%C3%A9".toList := by decide
-example : pyQuote (safeBytes "'") "a b/é".toList = "a%20b%2F%C3%A9".toList := by decide
-example : percentDecode "a%20b%2F%C3%A9".toList = utf8Bytes "a b/é".toList := by decide
+example : reEscape ['a', '.', 'b', '*', ' ', '('] = ['a', '\\', '.', 'b', '\\', '*', '\\', ' ', '\\', '('] := by decide
+example : literalAtoms (reEscape ['a', '.', 'b', '*', ' ', '(']) = some ['a', '.', 'b', '*', ' ', '('] := by decide
+example : literalAtoms ['a', '.', 'b'] = none := by decide      -- an unescaped metacharacter is not a literal atom
+example : literalAtoms ['\\', 'd'] = none := by decide           -- a class escape is not a literal atom
+example : pyQuote (safeBytes "':/&+") ['a', ' ', '/', 'é'] = ['a', '%', '2', '0', '/', '%', 'C', '3', '%', 'A', '9'] := by decide
+example : pyQuote (safeBytes "'") ['a', ' ', '/'] = ['a', '%', '2', '0', '%', '2', 'F'] := by decide
+example : percentDecode ['a', '%', '2', '0', '%', 'C', '3', '%', 'A', '9'] = utf8Bytes ['a', ' ', 'é'] := by
+  simp [percentDecode, hexVal, utf8Bytes, utf8]
 
 end C15
